@@ -66,6 +66,36 @@ def grammar(n, tag="c07", seed=None, workers=4):
     return progs[:n], stats
 
 
+SHAPE_RUNS = {
+    # every if statement of <= 2 arms (+ else) over the menu {fixed 4, bounded 1..9, unbounded}, `==`
+    "quick": [{"WS_MENU": 3, "WS_MAXARMS": 2, "WS_OPS": "eq", "WS_VARIANTS": "min"}],
+    # the whole menu with all three operators, and three-arm statements over the small menu
+    "thorough": [{"WS_MENU": 6, "WS_MAXARMS": 2, "WS_OPS": "all", "WS_VARIANTS": "min"},
+                 {"WS_MENU": 3, "WS_MAXARMS": 3, "WS_OPS": "eq", "WS_VARIANTS": "min"},
+                 {"WS_MENU": 2, "WS_MAXARMS": 2, "WS_OPS": "eq", "WS_VARIANTS": "all"}],
+}
+
+
+def shapes(tier, tag="c07"):
+    """The exhaustive small-scope family of spec/WowmShapes.tla (breadth-first, complete).
+    Returns (programs, stats); programs in a deterministic order, without duplicates."""
+    progs, seen = [], set()
+    stats = {"generated": 0, "distinct": 0, "runs": 0, "wall": 0.0, "bounds": SHAPE_RUNS[tier]}
+    for k, env in enumerate(SHAPE_RUNS[tier]):
+        res = C.run_tlc("WowmShapes", workers=1, env=env, name="%s-shapes-%d" % (tag, k), timeout=600)
+        stats["generated"] += res.generated
+        stats["distinct"] += res.distinct
+        stats["runs"] += 1
+        stats["wall"] += res.wall
+        for r in res.replay:
+            key = json.dumps(r, sort_keys=True)
+            if key not in seen:
+                seen.add(key)
+                progs.append(r)
+    progs.sort(key=lambda r: json.dumps(r, sort_keys=True))
+    return progs, stats
+
+
 # ----------------------------------------------------------------------------------------------
 # slots
 # ----------------------------------------------------------------------------------------------
